@@ -23,6 +23,15 @@ def axis_values(bits):
 def run(run):
     import minecraft
     from minecraft.networking.types import Position
+
+    def trace_layout(pv):
+        # the layout a *fresh* context uses for pv (observed above for every
+        # version and judged against the documented eras)
+        s_ = Sink()
+        Position.send_with_context(
+            (1, 2, 3), s_, ConnectionContext(protocol_version=pv))
+        return 'xyz' if s_.value() == rw.pack_position(1, 2, 3, 'xyz') \
+            else 'xzy'
     from minecraft.networking.connection import ConnectionContext
     from minecraft.networking.packets.clientbound.play import \
         MultiBlockChangePacket as MBC
@@ -179,6 +188,83 @@ def run(run):
         run.count('layout_trace_versions', len(trace))
         run.sample({'layout_switch': switches})
 
+    # ---- one context object re-used across versions --------------------------
+    # (Connection.connect() reassigns context.protocol_version on every
+    # reconnect: anything remembered per context object must follow)
+    if run.shard == 0:
+        reused = ConnectionContext(protocol_version=versions[0])
+        walk = [404, 477, 757, 340, 47, 578, 340, 757, 404, 443, 442, 443]
+        walk += [rng.choice(versions) for _ in range(300)]
+        for pv in walk:
+            if pv not in versions:
+                continue
+            reused.protocol_version = pv
+            lay = trace_layout(pv)
+            x, y, z = (rng.randrange(-2 ** 25, 2 ** 25),
+                       rng.randrange(-2 ** 11, 2 ** 11),
+                       rng.randrange(-2 ** 25, 2 ** 25))
+            exp = rw.pack_position(x, y, z, lay)
+            sink = Sink()
+            Position.send_with_context((x, y, z), sink, reused)
+            back = Position.read_with_context(Stream(exp), reused)
+            run.case(('reused-context', pv, x, y, z))
+            run.count('reused_context_cases')
+            if sink.value() != exp or tuple(back) != (x, y, z):
+                run.violation('position/reused-context', 'a context object '
+                              'whose protocol version was reassigned keeps '
+                              'using the layout of an earlier version',
+                              {'pv': pv, 'walk_so_far': walk[:walk.index(pv)
+                                                             + 1][-6:],
+                               'got': sink.value(), 'expected': exp,
+                               'back': tuple(back)})
+                break
+
+    # ---- two threads, versions on either side of the switch -----------------
+    if run.shard in (0, 1):
+        import sys
+        import threading
+        old_si = sys.getswitchinterval()
+        sys.setswitchinterval(1e-6)
+        errors = []
+        pairs = [(340, 757), (404, 477), (47, 578)][run.shard::2] or \
+            [(340, 757)]
+
+        def hammer(pv, n, seed):
+            import random
+            r = random.Random(seed)
+            ctx = ConnectionContext(protocol_version=pv)
+            lay = trace_layout(pv)
+            for _ in range(n):
+                x, y, z = (r.randrange(-2 ** 25, 2 ** 25),
+                           r.randrange(-2 ** 11, 2 ** 11),
+                           r.randrange(-2 ** 25, 2 ** 25))
+                exp = rw.pack_position(x, y, z, lay)
+                sink = Sink()
+                Position.send_with_context((x, y, z), sink, ctx)
+                back = Position.read_with_context(Stream(exp), ctx)
+                if sink.value() != exp or tuple(back) != (x, y, z):
+                    errors.append({'pv': pv, 'triple': (x, y, z),
+                                   'got': sink.value(), 'expected': exp,
+                                   'back': tuple(back)})
+                    return
+        try:
+            for a, b in pairs:
+                n = 60000 if thorough else 15000
+                ts = [threading.Thread(target=hammer, args=(a, n, 1)),
+                      threading.Thread(target=hammer, args=(b, n, 2))]
+                for t in ts:
+                    t.start()
+                for t in ts:
+                    t.join(120.0)
+                run.bulk(2 * n, 0)
+                run.count('concurrent_codec_calls', 2 * n)
+        finally:
+            sys.setswitchinterval(old_si)
+        if errors:
+            run.violation('position/concurrent-versions', 'two threads using '
+                          'the position codec for versions on either side of '
+                          'the layout switch disturb each other', errors[0])
+
     # chunk section positions (no context)
     sec = list(itertools.product(axis_values(22), axis_values(20),
                                  axis_values(22)))
@@ -220,3 +306,6 @@ def run(run):
     run.require('layout.xzy', 100)
     run.require('record.new', 10)
     run.require('record.old', 100)
+    if run.shard == 0:
+        run.require('reused_context_cases', 100)
+        run.require('concurrent_codec_calls', 1000)
